@@ -26,6 +26,11 @@ if style == "module":
     import joblib
     from joblib import Memory
     import c12pmod
+    if cfg.get("edit_after_import"):
+        # the source file is edited while this process - which has the OLD definition loaded - has not yet called the
+        # function (an edit made while a long job is running)
+        with open(path, "w") as f:
+            f.write(BODY.format(log=cfg["log"], k=cfg["edit_after_import"]))
     if cfg.get("which"):
         # one function object cached by two Memory objects on two directories
         cs = [Memory(os.path.join(d, "cache"), verbose=0).cache(c12pmod.f), Memory(os.path.join(d, "cache_b"), verbose=0).cache(c12pmod.f)]
